@@ -149,23 +149,22 @@ def validate(ctx, traces: list, label: str, prop: str | None = None, known=None)
     rejected = ctx.validate("PipelineTrace", stripped, label=label, corrupt=corrupt_for(prop))
     if not rejected:
         return []
-    idx = [k for k, _ in rejected][:50]
-    diag = tlc.diagnose("PipelineTrace", [stripped[k] for k in idx], tag=f"{ctx.prop}_{label}")
     out = []
-    for pos, k in enumerate(idx, start=1):
-        l, exp = diag.get(pos, (dict(rejected)[k], None))
-        evs = stripped[k]["events"]
-        ev = evs[l - 1] if 1 <= l <= len(evs) else None
-        sig, text = classify(ev, exp)
-        info = {"meta": traces[k].get("meta", {}), "event_index": l}
-        if known:
-            info.update(known(traces[k], sig) or {})
-        ctx.violation(sig, text + f" [{traces[k].get('meta')}]",
-                      {"kind": "exposure", "cfg": traces[k]["cfg"], "meta": traces[k].get("meta", {})}, info)
-        out.append((k, sig))
-    for k, _ in rejected[50:]:
-        ctx.violation("trace.rejected", "further rejected trace",
-                      {"kind": "exposure", "cfg": traces[k]["cfg"], "meta": traces[k].get("meta", {})}, {})
+    allidx = [k for k, _ in rejected]
+    for c in range(0, len(allidx), 50):          # every rejected trace is diagnosed, 50 per TLC run
+        idx = allidx[c:c + 50]
+        diag = tlc.diagnose("PipelineTrace", [stripped[k] for k in idx], tag=f"{ctx.prop}_{label}")
+        for pos, k in enumerate(idx, start=1):
+            l, exp = diag.get(pos, (dict(rejected)[k], None))
+            evs = stripped[k]["events"]
+            ev = evs[l - 1] if 1 <= l <= len(evs) else None
+            sig, text = classify(ev, exp)
+            info = {"meta": traces[k].get("meta", {}), "event_index": l}
+            if known:
+                info.update(known(traces[k], sig) or {})
+            ctx.violation(sig, text + f" [{traces[k].get('meta')}]",
+                          {"kind": "exposure", "cfg": traces[k]["cfg"], "meta": traces[k].get("meta", {})}, info)
+            out.append((k, sig))
     return out
 
 
@@ -178,6 +177,7 @@ def random_session(rng, cfg: dict, nruns: int = 3) -> list:
     operations that must have no effect (repr, iteration, describe, dir)."""
     where = [(g + 1, m + 1) for g, grp in enumerate(cfg["pipe"]) for m in range(len(grp))]
     ops = []
+    cur_times, cur_start = list(cfg["times"]), cfg.get("start", 0)
     if rng.random() < 0.3:
         ops.append(["peek", rng.choice(["repr", "iter", "describe", "dir"])])
     ops.append(["run"])
@@ -193,7 +193,13 @@ def random_session(rng, cfg: dict, nruns: int = 3) -> list:
             elif r < 0.8:
                 n = rng.randint(1, 4)
                 pts = sorted(rng.sample(range(1, 40), n))
-                ops.append(["resched", pts, rng.choice([0, 0, -3, pts[0] - 1]), rng.random() < 0.5])
+                start = rng.choice([0, 0, -3, pts[0] - 1])
+                if rng.random() < 0.35:
+                    # the same readout times once more, from another start time (and possibly the other mode)
+                    pts = list(cur_times)
+                    start = rng.choice([x for x in (0, -3, pts[0] - 1, pts[0] - 2) if x != cur_start and x < pts[0]] or [cur_start])
+                ops.append(["resched", pts, start, rng.random() < 0.5])
+                cur_times, cur_start = pts, start
             else:
                 ops.append(["peek", rng.choice(["repr", "iter", "describe", "dir"])])
         ops.append(["run"])
